@@ -299,7 +299,13 @@ func crashWorkload(ctx *vrun.Ctx, f *Factory, path []tlc.Step, cache uint64, nes
 				if _, err := tx.FetchBlock(f.Hash(b)); err != nil {
 					gone = true
 					if os.Getenv("VERIF_DEBUG") != "" {
-						fmt.Fprintf(os.Stderr, "pruned scenario block %d of %v: %v (sizes %v)\n", b, ops, err, func() []int { var z []int; for i := 1; i <= f.Sc.N; i++ { z = append(z, f.Blocks[i].MsgBlock().SerializeSize()) }; return z }())
+						fmt.Fprintf(os.Stderr, "pruned scenario block %d of %v: %v (sizes %v)\n", b, ops, err, func() []int {
+							var z []int
+							for i := 1; i <= f.Sc.N; i++ {
+								z = append(z, f.Blocks[i].MsgBlock().SerializeSize())
+							}
+							return z
+						}())
 					}
 				}
 				return nil
